@@ -6,25 +6,25 @@ def add(pid, cat, text, note, technique, design):
     P[pid] = dict(cat=cat, text=text, note=note, technique=technique, design=design)
 
 add("C04", "exploration",
-    "Exhaustive enumeration of the u8/u16 sub-domain (every byte value/pair at every position and failing offset of short buffers, all five specs) plus seeded proptest search over all widths, boundary/sign patterns and offsets up to usize::MAX, judged against a shift-and-add reference, plus reads whose window ends at or beyond byte 2^32 of a 4 GiB+64 byte buffer of lazily mapped zero pages; the domain is small and closed-form, so enumeration+random search is the natural level.",
+    "Exhaustive enumeration of the u8/u16 sub-domain (every byte value/pair at every position and failing offset of short buffers, all five specs) plus seeded proptest search over all widths, boundary/sign patterns and offsets up to usize::MAX, judged against a shift-and-add reference, plus reads whose window ends at or beyond byte 2^32 of a 4 GiB+64 byte buffer of lazily mapped zero pages; the run-time and native specifications must return exactly what the matching fixed one returns (value, error variant and payload, cursor); the domain is small and closed-form, so enumeration+random search is the natural level.",
     "Trusts the 12-line shift-and-add reference and the 64-bit little-endian host for the NativeEndian clause.",
     "exhaustive enumeration + property-based testing (proptest) against a reference implementation", "DESIGN.md §5 C04")
 
 add("C02", "exploration",
-    "Seeded proptest search over field-value assignments (boundary, top-bit, per-byte-distinct, raw) for 18 structure types x 4 encodings x fixed/run-time specs, judged against an independent ELF writer (inverse oracle) whose layout is checked against <elf.h>; the 2^16 domain of the derived one-/two-byte accessors is enumerated exhaustively; further sub-checks decode note headers through NoteIterator (the crate's NoteHeader is private), the crate-private version link fields through where the iterators go, and the packed version index at its use site (get_requirement/get_definition with the hidden bit). Random+boundary search is the right level: each field is decoded independently, so a wrong width/extension/mask/order shows on a large share of cases.",
+    "Seeded proptest search over field-value assignments (boundary, top-bit, per-byte-distinct, raw) for 18 structure types x 4 encodings x fixed/run-time specs, judged against an independent ELF writer (inverse oracle) whose layout is checked against <elf.h>; the 2^16 domain of the derived one-/two-byte accessors is enumerated exhaustively; further sub-checks decode note headers through NoteIterator (the crate's NoteHeader is private), the crate-private version link fields through where the iterators go, and the packed version index at its use site (get_requirement/get_definition with the hidden bit). Comparisons are field by field (never through the crate's own PartialEq) and buffers sit at every address residue. Random+boundary search is the right level: each field is decoded independently, so a wrong width/extension/mask/order shows on a large share of cases.",
     "Trusts the writer (cross-checked field by field against glibc <elf.h> offsets at start-up) and the ABI macro transcriptions (ELF32_R_*, ELF64_R_*, ELF_ST_*).",
     "property-based testing (proptest) with an inverse (encoder) oracle + exhaustive enumeration of 2^16 accessor inputs", "DESIGN.md §5 C02")
 add("C09", "exploration",
-    "Seeded proptest search over (entry type, class, order, n<=40 writer-encoded entries, ragged tails of every residue, access scripts incl. indices at len, len+1, k*2^32+i and near usize::MAX whose byte offset wraps, interleaved iterators, and the provided Iterator methods nth/skip/step_by/count/last/fuse on fresh and partly consumed iterators); model oracle len=floor(bytes/ABI entsize).",
+    "Seeded proptest search over (entry type, class, order, n<=40 writer-encoded entries, ragged tails of every residue, access scripts incl. indices at len, len+1, k*2^32+i and near usize::MAX whose byte offset wraps, interleaved iterators, and the provided Iterator methods nth/skip/step_by/count/last/fuse on fresh and partly consumed iterators); model oracle len=floor(bytes/ABI entsize); tables at every address residue, the size_hint contract, direct calls on the concrete relocation iterator types, field-by-field comparison (never the crate's own PartialEq); a second sub-check uses tables of 65 534..200 000 entries.",
     "Trusts the ABI entry sizes (from <elf.h>) and the writer.",
     "model-based property testing (proptest): access scripts against a floor(len/entsize) model and encoder ground truth", "DESIGN.md §5 C09")
 add("C15", "exploration",
-    "Exhaustive enumeration of every table of length 0..7 over {NUL,'a',0xC3,0xA9} at every offset 0..len+2 (233k lookups) plus seeded proptest search over tables up to 4 KiB (4%: up to 200 KiB with NUL-free runs of 4 096 / 65 535+ bytes) with offsets at len-1, len, len+1, k*2^32+i, boundary values and usize::MAX, against a NUL-scan reference, including pointer identity of the returned slice.",
+    "Exhaustive enumeration of every table of length 0..7 over {NUL,'a',0xC3,0xA9} at every offset 0..len+2 (233k lookups) plus seeded proptest search over tables up to 4 KiB (4%: up to 200 KiB with NUL-free runs of 4 096 / 65 535+ bytes) with offsets at len-1, len, len+1, k*2^32+i, boundary values and usize::MAX, against a NUL-scan reference, including pointer identity of the returned slice; tables start at every address residue and include valid multi-byte UTF-8 text.",
     "Trusts the NUL-scan reference and core::str::from_utf8.",
     "exhaustive enumeration + property-based testing (proptest) against a reference implementation", "DESIGN.md §5 C15")
 
 add("C11", "exploration",
-    "Seeded proptest search over name sets built to collide (constructed djb2 collisions, low-bit neighbours, same-bucket names, duplicates, empty and high-byte names), table parameters (nbucket, bloom words 1..64, shift 0..31, symoffset) and all four encodings; .gnu.hash sections come from an independent builder (inverse oracle) and every lookup is judged against a linear scan; a second stream corrupts the tables arbitrarily and checks the soundness clause; the hash function is compared with a djb2 reference exhaustively on short strings and on random strings.",
+    "Seeded proptest search over name sets built to collide (constructed djb2 collisions, low-bit neighbours, same-bucket names, duplicates, empty and high-byte names), table parameters (nbucket, bloom words 1..64, shift 0..31, symoffset) and all four encodings; .gnu.hash sections come from an independent builder (inverse oracle) and every lookup is judged against a linear scan; all queries are also run on ONE table value sorted by hash in both directions (history independence), as slices of the string table's own buffer, and with a NUL appended; a second stream corrupts the tables arbitrarily and checks the soundness clause; the hash function is compared with a djb2 reference exhaustively on short strings and on random strings.",
     "Trusts the independent GNU-hash builder (bloom/bucket/chain layout per the GNU format) and the linear-scan oracle.",
     "property-based testing (proptest): inverse oracle (table builder) + linear-scan reference + corruption for soundness; exhaustive enumeration for short hash inputs", "DESIGN.md §5 C11")
 add("C12", "exploration",
@@ -32,11 +32,11 @@ add("C12", "exploration",
     "Trusts the independent .hash builder and the transcription of the gABI elf_hash figure.",
     "property-based testing (proptest): inverse oracle (table builder) + linear-scan reference + corruption for soundness; exhaustive enumeration for short hash inputs", "DESIGN.md §5 C12")
 add("C13", "exploration",
-    "Seeded proptest search over version models (files x aux records, definitions x names, versym arrays with hidden/unknown/local/global entries) laid out by an independent builder in random forward-linked, interleaved, gapped record orders; every symbol index is queried through the stand-alone table, ElfBytes and ElfStream and compared with the model.",
+    "Seeded proptest search over version models (files x aux records, definitions x names, versym arrays with hidden/unknown/local/global entries) laid out by an independent builder in random forward-linked, interleaved, gapped record orders; every symbol index is queried through the stand-alone table, ElfBytes and ElfStream and compared with the model; some models list the reserved indexes 0/1, some files exceed 1 MiB, are padded so that the distance from a version section to EOF is a multiple of 2^16 records, or have about 0xff00 sections.",
     "Trusts the version-graph builder (GNU symbol-versioning layout) and the file builder; well-formedness as scoped in the statement.",
     "property-based testing (proptest) with an inverse oracle: version-graph model -> section bytes -> queries compared with the model", "DESIGN.md §5 C13")
 add("C14", "exploration",
-    "Seeded proptest search over note sequences (sizes of every residue, GNU typed notes, name shapes), alignments incl. non-powers of two and huge values, both byte orders and classes, exact/garbage/truncated/corrupted tails, three access paths; judged against an independent reference walker with pointer-exact name/desc ranges.",
+    "Seeded proptest search over note sequences (sizes of every residue, GNU typed notes, name shapes), alignments incl. non-powers of two and huge values, both byte orders and classes, exact/garbage/truncated/corrupted tails, three access paths; judged against an independent reference walker with pointer-exact name/desc ranges; nth/skip/count/last/step_by/size_hint on fresh and partly consumed iterators must agree with repeated next().",
     "Trusts the 40-line reference walker; ambiguous tails (empty descriptor starting in padding beyond the data) are excluded and counted.",
     "property-based testing (proptest) against a reference implementation (note walker)", "DESIGN.md §5 C14")
 
